@@ -91,6 +91,16 @@ def _channel_class_of(fn, name, seen=None):
                     r = _channel_class_of(fn, dotted(m.args[0]), seen)
                     if r:
                         return r
+            # `x, channels = pending` with pending taken out of a table whose declared element type names the channel class
+            for m in ast.walk(fn):
+                if isinstance(m, ast.Assign) and isinstance(m.targets[0], ast.Tuple) and any(dotted(e) == src for e in m.targets[0].elts):
+                    cls_ = fn
+                    while cls_ is not None and not isinstance(cls_, ast.ClassDef):
+                        cls_ = getattr(cls_, '_parent', None)
+                    anns = ' '.join(text(a.annotation) for a in (cls_.body if cls_ is not None else []) if isinstance(a, ast.AnnAssign) and 'pending' in (dotted(a.target) or ''))
+                    names = {c for c in ('LeCreditBasedChannel', 'ClassicChannel') if c in anns}
+                    if len(names) == 1:
+                        return names.pop()
     return None
 
 
@@ -106,6 +116,11 @@ def inserts(p):
                 base = dotted(t.value)
                 if base in al and al[base] in TABLES:
                     cls = _channel_class_of(m, dotted(n.value))
+                    if cls is None:
+                        # found by lookup, its class established by an isinstance guard on the way to the insert
+                        for t_, pol in paths.flat_guards(n, stop=m):
+                            if pol and isinstance(t_, ast.Call) and dotted(t_.func) == 'isinstance' and len(t_.args) == 2 and dotted(t_.args[0]) == dotted(n.value) and dotted(t_.args[1]) in ('LeCreditBasedChannel', 'ClassicChannel'):
+                                cls = dotted(t_.args[1])
                     out.append((name, al[base], norm(t.slice), cls, n))
     return out
 
